@@ -47,6 +47,8 @@ API_SITE = {
     1: "dulwich/pack.py:write_pack", 2: "dulwich/pack.py:write_pack_objects", 3: "dulwich/pack.py:write_pack_data",
     4: "dulwich/object_store.py:PackBasedObjectStore.add_objects", 5: "dulwich/object_store.py:PackBasedObjectStore.repack",
     6: "dulwich/pack.py:write_pack_from_container", 7: "dulwich/pack.py:PackChunkGenerator._pack_data_chunks",
+    8: "dulwich/object_store.py:DiskObjectStore.add_thin_pack", 9: "dulwich/object_store.py:DiskObjectStore.add_pack",
+    10: "dulwich/object_store.py:PackBasedObjectStore.add_pack_data",
 }
 READ_SITE = {
     "getitem": "dulwich/pack.py:Pack.__getitem__", "getitem-rev-cache1": "dulwich/pack.py:Pack.__getitem__",
@@ -182,7 +184,7 @@ def first_of(order, clauses):
 # =========================================================================== writer cases
 def heavy_for_py(case):
     api, deltify = case["row"][0], case["row"][1]
-    if not (deltify or api in (6, 7)):
+    if not (deltify or api in (6, 7, 8, 9)):
         return False
     big = 0
     for i in case["objs"] + case.get("have", []):
@@ -372,7 +374,7 @@ class Judge:
         real_src = res.get("src_seq") or []
         ok = False
         for (src, tgt, hdrs) in exp["beh"]:
-            if api == 6 and src != real_src:
+            if api in (6, 8, 9) and src != real_src:
                 continue
             if api == 5:
                 if sorted(tgt) == sorted(real_tgt):
@@ -481,7 +483,7 @@ def run(ctx):
     idump = os.path.join(ctx.scratch, "idx")
     gdump = os.path.join(ctx.scratch, "gitsc")
     wplan = ([("q", "PackFmtWriter_q.cfg", 9), ("q3", "PackFmtWriter_q3.cfg", 9), ("dup", "PackFmtWriter_dup.cfg", 4)] if quick else
-             [("t3", "PackFmtWriter_t3.cfg", 5), ("t4", "PackFmtWriter_t4.cfg", 6), ("rows", "PackFmtWriter_rows.cfg", 10),
+             [("t3", "PackFmtWriter_t3.cfg", 5), ("t4", "PackFmtWriter_t4.cfg", 6), ("rows", "PackFmtWriter_rows.cfg", 30),
               ("q", "PackFmtWriter_q.cfg", 2), ("dup", "PackFmtWriter_dup.cfg", 1)])
     futs = {}
     for nm, static, mod in wplan:
